@@ -1,4 +1,5 @@
 """Property-specific harnesses that are not plain register-to-register wrappers (denominators, allocator, prefetch, macros)."""
+import hashlib
 import os
 import re
 import time
@@ -682,6 +683,88 @@ def alloc_compile_failure(task):
 HANDLERS['C18'] = allocator
 
 
+
+# ------------------------------------------------------------------------------------------------ C19 API parity (auxiliary, not solver-based)
+def api_parity(prop, tier, kf):
+    """Clause "every operation that the width-1 vector of an element type offers is declared, defined and linkable for every wider
+    vector": a finite enumeration with no input space, so this part is NOT a solver result.  It reuses the wrapper generator: every wrapper
+    of every property (all template constants) is compiled per configuration; a wrapper that does not compile for a wider type while
+    the same operation compiles for the width-1 vector of that element type, or that references an avel:: function with no definition,
+    is a violation.  Replay = compiling and linking one call."""
+    import subprocess
+    from concurrent.futures import ThreadPoolExecutor
+    from . import gen, build, configs, memops, replay
+    names = ['sse2', 'avx2', 'avx512'] if tier == 'quick' else [c.name for c in configs.ALL if c.name != 'none' and 'AVEL_SSE2' in c.macros]
+    props = ['C%02d' % i for i in range(1, 18)] + ['C19']
+
+    def one(cname):
+        cfg = configs.BY_NAME[cname]
+        ws, seen = [], set()
+        for w in gen.wrappers_for(cfg, props, 'thorough') + memops.wrappers_for(cfg, ['C08', 'C09', 'C03'], 'thorough'):
+            if w['name'] not in seen:
+                seen.add(w['name'])
+                ws.append(w)
+        text, ok, dropped, cmd, ll = build.compile_ir(cfg, ws, 'parity', keep=False)
+        okn = {w['name'] for w in ok}
+        out = []
+        for w, err in dropped:
+            if w.get('scalar') or w['type'].startswith('vec1x') or w.get('mem'):
+                continue
+            m = re.match(r'vec(\d+)x(\d+)([uif])', w['type'])
+            if not m:
+                continue
+            sib = w['name'].replace('w_%s__' % w['type'], 'w_vec1x%s%s__' % (m.group(2), m.group(3)), 1)
+            if sib in okn:
+                out.append({'cfg': cname, 'kind': 'parity:missing', 'wrapper': w, 'desc': '%s compiles for vec1x%s%s but not for %s: %s'
+                            % (w['op'] + ('<%s>' % w['K'] if w.get('K') is not None else ''), m.group(2), m.group(3), w['type'], err[:160])})
+        # referenced-but-undefined avel functions, attributed to the wrappers that (transitively, after inlining) call them
+        und = set(re.findall(r'^declare [^@\n]*@(_ZN4avel\w+)', text, re.M))
+        if und:
+            cur = None
+            users = {}
+            for line in text.split('\n'):
+                if line.startswith('define '):
+                    mm = re.search(r'@([\w.$]+)\(', line)
+                    cur = mm.group(1) if mm else None
+                elif cur and '@_ZN4avel' in line:
+                    for sname in re.findall(r'@(_ZN4avel\w+)', line):
+                        if sname in und:
+                            users.setdefault(sname, []).append(cur)
+            byname = {w['name']: w for w in ok}
+            for sname in sorted(und):
+                try:
+                    dem = subprocess.run(['c++filt', sname], stdout=subprocess.PIPE, universal_newlines=True).stdout.strip()
+                except Exception:
+                    dem = sname
+                us = [u for u in users.get(sname, []) if u in byname]
+                w = byname[us[0]] if us else {'name': sname, 'op': 'link', 'type': '-', 'line': ''}
+                out.append({'cfg': cname, 'kind': 'parity:undefined', 'wrapper': w, 'symbol': sname,
+                            'desc': '%s is declared and called (%d wrapper(s), e.g. %s) but defined nowhere: does not link' % (dem, len(us), us[0] if us else '?')})
+        return cname, len(ws), len(ok), out
+
+    with ThreadPoolExecutor(max_workers=min(8, len(names))) as ex:
+        results = list(ex.map(one, names))
+    recs, total = [], 0
+    for cname, nws, nok, out in results:
+        total += nws
+        for v in out:
+            cfg = configs.BY_NAME[cname]
+            w = v['wrapper']
+            h = hashlib.sha1((w['name'] + cname + v['kind']).encode()).hexdigest()[:10]
+            outdir = os.path.join(replay.REPLAYS, prop, 'parity.%s.%s.%s' % (w['name'], cname, h))
+            os.makedirs(outdir, exist_ok=True)
+            open(os.path.join(outdir, 'repro.cpp'), 'w').write('#include "verif_prelude.hpp"\n%s\nint main() { return 0; }\n' % w.get('line', ''))
+            sh = os.path.join(outdir, 'run.sh')
+            open(sh, 'w').write('#!/bin/sh\n# exit 1 if the call does not compile and link against the real headers\ncd "%s" && clang++-14 %s -O1 -w -I%s -I%s repro.cpp -o repro.bin 2>&1 | tail -4; '
+                                '[ -x repro.bin ] && { rm -f repro.bin; echo "builds and links"; exit 0; }; echo REPRODUCES; exit 1\n'
+                                % (outdir, ' '.join(cfg.flags()), os.path.join(build.HERE, 'cxx'), build.repo_include()))
+            os.chmod(sh, 0o755)
+            rr = subprocess.run(['sh', sh], stdout=subprocess.PIPE, stderr=subprocess.STDOUT, universal_newlines=True)
+            rec = {'kind': v['kind'], 'desc': v['desc'], 'inputs': [cname], 'rm': '-', 'replay': sh, 'confirmed': rr.returncode == 1,
+                   'detail': {'clang++-14': rr.stdout[-300:]}, 'wrapper': w['name'], 'config': cname, 'configs': [cname], 'meta': w, 'cfgobj': cfg}
+            recs.append(rec)
+    return recs, {'configs': names, 'wrappers_compiled': total}
+
 # ------------------------------------------------------------------------------------------------ C19 macro logic
 def macro_logic(prop, tier, seed, a):
     """only the clauses of C19 that have an input space (subsets of feature macros / compiler flags) are decided here"""
@@ -712,6 +795,24 @@ def macro_logic(prop, tier, seed, a):
         else:
             r['known_id'] = ent['id']
             known_hits.append(r)
+    par_recs, par_stats = api_parity(prop, tier, kf)
+    seen_par = set()
+    for r in par_recs:
+        if not r['confirmed']:
+            unconfirmed.append(r)
+            continue
+        ent = known.match(kf, prop, {'op': r['meta'].get('op', ''), 'type': r['meta'].get('type', '-')}, r['cfgobj'], r['kind'], r['desc'])
+        r.pop('cfgobj', None)
+        r.pop('meta', None)
+        if ent is None:
+            key = (r['wrapper'], r['kind'])
+            if key in seen_par:
+                continue           # one report per call site, not per configuration
+            seen_par.add(key)
+            violations.append(r)
+        else:
+            r['known_id'] = ent['id']
+            known_hits.append(r)
     for ent in kf:
         hs = [h for h in known_hits if h['known_id'] == ent['id']]
         if hs:
@@ -722,8 +823,8 @@ def macro_logic(prop, tier, seed, a):
     n = len(obls)
     dis = sum(1 for o in obls if o['status'] == 'discharged')
     wall = time.time() - t0
-    print('[%s %s] macro-logic obligations=%d discharged=%d undecided=%d unconfirmed-cex=%d known=%d violations=%d wall=%.0fs'
-          % (prop, tier, n, dis, len(undecided), len(unconfirmed), len(known_hits), len(violations), wall), flush=True)
+    print('[%s %s] macro-logic obligations=%d discharged=%d undecided=%d unconfirmed-cex=%d known=%d violations=%d wall=%.0fs; API parity (compile/link enumeration, not solver): %d wrappers in %s'
+          % (prop, tier, n, dis, len(undecided), len(unconfirmed), len(known_hits), len(violations), wall, par_stats['wrappers_compiled'], ','.join(par_stats['configs'])), flush=True)
     if not a.no_evidence:
         os.makedirs(check.EVIDENCE, exist_ok=True)
         by_kind = {}
@@ -738,8 +839,9 @@ def macro_logic(prop, tier, seed, a):
                            'imply; (P2) no static_assert(false) arm is reachable when every named macro comes with its documented flag, nor under '
                            'AVEL_AUTO_DETECT; (P3) AVEL_AUTO_DETECT provides the same vector headers as naming every enabled macro; (P4) each vector '
                            'header is included exactly under its documented macro; (P5) natural_width_*/max_width_* name provided types and max_width is '
-                           'the widest. NOT decided here (no input space for a solver; see DESIGN.md section 10): that every configuration compiles, '
-                           'trivial copyability / sizeof of the vector classes, and that every operation is declared, defined and linkable for every width.'
+                           'the widest. NOT decided here (no input space for a solver; see DESIGN.md section 10): that every configuration compiles and '
+                           'trivial copyability / sizeof of the vector classes. The clause "every operation is declared, defined and linkable for every width" is covered '
+                           'only by the auxiliary compile/link enumeration reported under api_parity_auxiliary.'
                            % stats['flags'],
             'obligations': n, 'discharged': dis, 'evaluations': n, 'distinct_nontrivial': n,
             'rule': 'one obligation per (clause, macro | static_assert arm | vector header | width constant); each is a z3 query over all macro subsets',
@@ -751,6 +853,10 @@ def macro_logic(prop, tier, seed, a):
             'known_findings_hit': sorted({h['known_id'] for h in known_hits}),
             'unconfirmed': [{k: u[k] for k in ('wrapper', 'desc', 'inputs', 'detail')} for u in unconfirmed],
             'undecided': undecided, 'exhaustive': True,
+            'api_parity_auxiliary': {'note': 'NOT a solver result: finite compile/link enumeration of every generated wrapper (all properties, all template constants); '
+                                             'a wrapper that fails to compile for a wider type while its width-1 sibling compiles, or that references an undefined avel:: function, is reported',
+                                     'configs': par_stats['configs'], 'wrappers_compiled': par_stats['wrappers_compiled'],
+                                     'reports': [{'wrapper': r['wrapper'], 'config': r['config'], 'kind': r['kind'], 'desc': r['desc']} for r in par_recs][:40]},
             'checker_cmd': 'bin/avelcheck --property C19 --tier %s' % tier,
         }
         ev = {'property_id': prop, 'tier': tier, 'seed': seed, 'level': 'other', 'coverage': cov,
